@@ -48,6 +48,8 @@ CLAIMS = {
     "C05": mixed("PROVED: the accumulation pass compute_solutions (any number of component grids and sub-areas, extend-split receiver) adds to the combined result exactly "
                  "the sum over component grids and areas of coefficient*component result, and the same to the container total / the area values; Integration.evaluate_area moves area value, container total and combined result by the same coefficient*component-integral; process_removed_objects "
                  "subtracts each removed area exactly once; RefinementContainer.set_value/set_evaluations keep total == sum over objects (ghost Sum + induction lemma). "
+                 "dimension-wise / standard strategies: Integration.calculate_operation_dimension_wise adds coefficient * (quadrature of the grid set to exactly the handed-in point sets) to the combined result and the container total, "
+                 "evaluate_levelvec adds coefficient * component integral over the whole domain. "
                  "BOUNDED: at every stop of every strategy result == sum coeff*component result recomputed independently, == from-scratch evaluation, unchanged by reevaluate_at_end."),
     "C06": mixed("PROVED: splitting an interval yields two children tiling it at an inner point with shared-point level max+1, inherited outer levels, coarsening max(c-1,0)>=0, "
                  "receiver unchanged, never raises; the selection kernel returns the FIRST object at/after the cursor whose benefit reaches the tolerance and advances the cursor "
